@@ -643,7 +643,30 @@ pub fn long_game(seed: usize, a: usize, b: usize, max: usize) -> (Game, Vec<Op>)
     (Game { name, start, alphabet, depth: max, flavours: false, lists: false, outcome_ops: true }, ops)
 }
 
+/// CAPRET game for square x (universe.rs): alphabet = the distinct texts of the line
+pub fn capret_game(x: usize) -> Option<(Game, Vec<Op>)> {
+    let (start, line) = crate::universe::capture_return_line(x)?;
+    let mut alphabet: Vec<String> = Vec::new();
+    let mut ops = Vec::new();
+    for m in &line {
+        let t = text::uci(*m);
+        let idx = match alphabet.iter().position(|a| *a == t) {
+            Some(i) => i,
+            None => {
+                alphabet.push(t);
+                alphabet.len() - 1
+            }
+        };
+        ops.push(Op::Push(idx, 0));
+    }
+    let name: &'static str = Box::leak(format!("CAPRET sq={}", x).into_boxed_str());
+    Some((Game { name, start, alphabet, depth: line.len(), flavours: false, lists: false, outcome_ops: true }, ops))
+}
+
 fn long_game_by_name(name: &str) -> Option<Game> {
+    if let Some(rest) = name.strip_prefix("CAPRET sq=") {
+        return capret_game(rest.parse().ok()?).map(|g| g.0);
+    }
     let rest = name.strip_prefix("LONG ")?;
     let nums: Vec<usize> = rest.split(|c: char| !c.is_ascii_digit()).filter(|x| !x.is_empty()).filter_map(|x| x.parse().ok()).collect();
     if nums.len() != 4 {
@@ -657,6 +680,12 @@ fn long_game_by_name(name: &str) -> Option<Game> {
 /// then pop everything, again with the full oracle
 pub fn long_run(ctx: &mut Ctx, seed: usize, a: usize, b: usize, max: usize, stride: usize, family: u8) -> usize {
     let (game, ops) = long_game(seed, a, b, max);
+    line_run(ctx, &game, &ops, stride, family)
+}
+
+pub fn line_run(ctx: &mut Ctx, game: &Game, ops: &[Op], stride: usize, family: u8) -> usize {
+    let game = game.clone();
+    let ops = ops.to_vec();
     let Some(mut node) = root(&game) else { return 0 };
     check_state(ctx, &game, &node, family);
     let n = ops.len();
